@@ -30,7 +30,7 @@ CHECKS = {
     "C06": ("exploration",
             "robustness property testing with catch_unwind over the whole accepted language (AST-first generation + acceptable mutants), crash signatures keyed by panic site + layout shape against a known-findings list",
             "Programs over everything the parser accepts (DEC with all operand shapes, mixed-case references, .ORG backward/equal/forward, images 0..400 bytes, up to 40 names, every instruction shape) are parsed; if accepted (and the reference recogniser agrees) Translator::compile, Machine::load, Machine::new_with_program and the byte-code listing must not panic in a build with debug assertions and overflow checks. Two root causes remain as known findings (deliberate panic on backward .ORG; images > 240 bytes); they are keyed on panic site + layout shape so that any other crash, or the same panic site on a program without that shape, is reported.",
-            "Trusted: Rust panic detection. The TUI program-pane path (ProgramDisplayState::from_bytecode) and the process-level `verify`/`run` are exercised by the harness-bin checks.",
+            "Trusted: Rust panic detection. Process level: for sampled accepted programs the real binary's `verify` must exit 0 and `run p 0` must not die. The TUI path (Tui::load_program, ProgramDisplayState::from_bytecode, program pane rendering) is exercised by C17, whose scripts load 48 generated accepted programs.",
             "DESIGN.md §4 C06"),
     "C16": ("exploration",
             "round-trip property testing (format -> parse) at program and line granularity over AST-first generated programs, enumerated instruction shapes and mutants",
@@ -143,7 +143,7 @@ def main():
         ],
         "checks": checks,
         "not_applicable": na,
-        "notes": "Every check rebuilds the harness against /repo's working tree (cargo path dependency) before running. exit 0 held / 1 VIOLATION / 2 inconclusive. Known findings: /verif/known-findings.txt.",
+        "notes": "Thorough tier = the same harness with 10-100x counts plus a coverage-guided libFuzzer stage (fuzz.sh: fz_text for C02/C03/C06/C16, fz_machine for C05/C11/C13, fz_tui for C17; artifacts are re-checked by the deterministic replay path). Every check rebuilds the harness against /repo's working tree (cargo path dependency) before running. exit 0 held / 1 VIOLATION / 2 inconclusive. Known findings: /verif/known-findings.txt.",
     }
     if not na:
         del m["not_applicable"]
